@@ -7,6 +7,9 @@
 //       of analyze_file is carried as `requires`.  publish_diagnostics_for_file is called through the T5b helper
 //       vp_publish_on whose PRECONDITION says on which state it runs: the post-analysis state of (path, text).
 //   L2: prelude/main_l2.rs (C06 / C10 / C19 lemmas composed with prelude/analyze_l2.rs, canaries).
+// v2 (composed with analyze_v2 / memo_v2): the explicit hypotheses of analyze_file (env_ok, li_cache_wf, canon_cache_wf,
+// H-ideal for the text: prelude/main_spec_v2.rs analyze_pre) are carried as `requires`; the state part db_inv is
+// re-established by all three handlers (did_close: from the frame of cleanup_file_cache proved in unit memo_v2).
 use rustpython_parser::{parse, Mode};
 use rustpython_parser::ast::{Stmt, Expr, Keyword, Identifier, Constant, ExceptHandler, ExprCall, Alias, Arguments, ArgWithDefault};
 use rustpython_parser::text_size::TextRange;
@@ -16,6 +19,7 @@ global size_of usize == 8;  // A6: 64-bit target
 pub mod pre {
 use super::*;
 //@include prelude/path.rs
+//@include prelude/path_ext.rs
 //@include prelude/types.rs
 //@include prelude/dashmap.rs
 //@include prelude/hashset.rs
@@ -41,6 +45,9 @@ use super::*;
 //@include prelude/visit_spec.rs
 //@include prelude/analyze_spec.rs
 //@include prelude/analyze_l2.rs
+//@include prelude/memokeys_spec.rs
+//@include prelude/fs_canonical_decl.rs
+//@include prelude/memokeys_canon_spec.rs
 //@include build/lspspec_main.rs
 } // mod pre
 use pre::*;
@@ -48,15 +55,18 @@ use pre::*;
 #[verifier::external_type_specification] pub struct ExUndeclaredFixture(UndeclaredFixture);
 #[verifier::external_type_specification] pub struct ExFixtureCycle(FixtureCycle);
 
-//@dbstruct_arc definitions file_definitions usages usage_by_fixture definitions_version file_cache undeclared_fixtures imports available_fixtures_cache cycle_cache
+//@item src/fixtures/mod.rs struct EditableInstall
+//@dbstruct_arc definitions file_definitions usages usage_by_fixture definitions_version file_cache undeclared_fixtures imports canonical_path_cache line_index_cache cycle_cache available_fixtures_cache imported_fixtures_cache site_packages_paths editable_install_roots workspace_root plugin_fixture_files
 
-//@include prelude/index_dbspecs.rs
+//@include prelude/index_dbspecs_all.rs
 
-/// canonicalisation of a path (file-system fact; get_canonical_path memoises it) -- as in units analyze / memo
-pub uninterp spec fn canon(p: PV) -> PV;
+/// canonicalisation of a path -- as in unit analyze_v2: what get_canonical_path is PROVED to return (unit memo_keys)
+pub open spec fn canon(p: PV) -> PV { canon_now(p) }
 
 //@include prelude/lsp_backend_mut.rs
-//@include prelude/main_spec.rs
+//@include prelude/classify_spec.rs
+//@include prelude/visit_env.rs
+//@include prelude/main_spec_v2.rs
 //@include prelude/main_l2.rs
 
 impl FixtureDatabase {
@@ -130,6 +140,26 @@ impl Backend {
     ensures final(self).fixture_db.file_cache.m() == old(self).fixture_db.file_cache.m(),
 @*/
 }
+
+
+//@tags C06 C07 C19
+/// the state hypotheses are an INVARIANT of the notification handlers: whichever of the three runs, db_inv holds again
+/// (for didOpen / didChange with a path it is even established outright by the analysis)
+pub proof fn lemma_db_inv_is_invariant(o: Backend, s: Backend, uri: Uri, text: Seq<char>, changes: Seq<TextDocumentContentChangeEvent>)
+    requires db_inv(o.fixture_db),
+        did_open_post(o, s, uri, text) || did_change_post(o, s, uri, changes) || did_close_post(o, s, uri),
+    ensures db_inv(s.fixture_db),
+{}
+/// canary: "the state hypotheses are contradictory"
+pub proof fn canary_db_inv_contradictory(o: FixtureDatabase, t: Seq<char>)
+    requires db_inv(o), hash_collides_with_nothing(t), forall|f: PV| li_no_collision(o.line_index_cache.m(), f, t),
+    ensures false,
+{}
+/// canary: "didClose establishes the state hypotheses from nothing"
+pub proof fn canary_did_close_establishes_db_inv(o: Backend, s: Backend, uri: Uri)
+    requires did_close_post(o, s, uri),
+    ensures db_inv(s.fixture_db),
+{}
 
 } // verus!
 fn main() {}
